@@ -40,7 +40,8 @@ func (f Float) WriteTerm(w io.Writer, opts *WriteOptions, _ *Env) error {
 		_, _ = ew.Write([]byte(")"))
 	}
 
-	if !openClose && opts.right != (operator{}) && (opts.right.name == atomSmallE || opts.right.name == atomE) {
+	// An operator whose name begins with e or E would read as the exponent of this number.
+	if !openClose && opts.right != (operator{}) && strings.HasPrefix(strings.ToLower(opts.right.name.String()), "e") {
 		_, _ = ew.Write([]byte(" "))
 	}
 
